@@ -1,5 +1,5 @@
 From AV Require Import Lib.Base Generated.TimeoutsGen Model.Timeouts.
 Require Extraction.
 Require Import ExtrOcamlBasic.
-Extraction "model.ml" keep init step apply run count_writers deadline live next_timer
+Extraction "model.ml" keep init step apply run count_writers deadline live pending next_timer
   total_when ctx_when read_when ceil_to effective_total total_enabled ctx_enabled read_enabled.
